@@ -800,6 +800,23 @@ def c16(m, h, i, s):
     pre = pos(s.pre, v, snd)
     touched = pre is not None and (pre["block"] == height or traded_here)
     m.stats["checked"] += 1
+    # "not touched in that block" is judged from the history, not from the stored stamp: a position whose
+    # last-update block is this block although no transaction of this block was about it has been marked by
+    # somebody else's transaction, and its owner is then restricted without having acted
+    if liq_here and pre is not None and pre["block"] == height:
+        about = False
+        j = i - 1
+        while j >= 0 and I(h.steps[j].obs, "env.height") == height:
+            sj = h.steps[j]
+            if sj.kind == "eng" and sj.ok and len(sj.toks) > 4 and sj.toks[4] == str(v):
+                if sj.verb() in ("open", "close", "deposit", "withdraw") and sj.sender() == snd:
+                    about = True
+                if sj.verb() == "liq" and int(sj.toks[5]) == snd:
+                    about = True
+            j -= 1
+        if not about:
+            m.bad(h, i, "untouched_position_restricted",
+                  f"position of {snd} on {v} carries block {height} although no transaction of this block was about it; its {verb} is {'accepted' if s.ok else 'refused'}")
     if liq_here and touched:
         m.hit("restricted:" + verb, h, i)
         if s.ok:
